@@ -31,5 +31,6 @@ Fixpoint mon_run (sc : list (stim * obs)) (errs : list Z) (got : list (Z * Z)) :
 Definition mon_C14 (c : wcase) : bool := mon_run (c_script c) [] [].
 
 Definition case := wcase.
-Definition verdict (c : case) : nat := if mon_C14 c then classify rel_C14 c else 1.
+Definition verdict (c : case) : nat :=
+  if negb (mon_nohang c) then 1 (* a caller hangs *) else if mon_C14 c then classify rel_C14 c else 1.
 Definition mismatches (cs : list case) : list (nat * nat) := collect verdict 0 cs.
